@@ -22,6 +22,7 @@
 
 
 import os
+import re
 from os.path import dirname, join
 from logging import DEBUG, INFO, addLevelName
 import mlzlog
@@ -108,11 +109,11 @@ class LogfileHandler(mlzlog.LogfileHandler):
             # keep the file being written and the (max_days - 1) newest earlier log files
             # (the date in the name sorts chronologically). files with a later date
             # are not touched: they must not push the current file out of the list
-            prefix = self.rootname + '-'
+            # only files named <rootname>-YYYY-MM-DD.log are ours
+            pattern = re.compile(re.escape(self.rootname) + r'-\d{4}-\d{2}-\d{2}\.log')
             with os.scandir(dirname(self.baseFilename)) as it:
                 files = sorted(entry.path for entry in it
-                               if entry.is_file() and entry.name.startswith(prefix)
-                               and entry.name.endswith('.log')
+                               if entry.is_file() and pattern.fullmatch(entry.name)
                                and entry.path < self.baseFilename)
             for filepath in files[:max(0, len(files) - (self.max_days - 1))]:
                 os.remove(filepath)
